@@ -11,6 +11,18 @@ def _ex():
     return paths.CUR
 
 
+# every division whose denominator is a symbolic time quantity is reported to this sink (the
+# harness's event log): "the denominator cannot be zero on this path" is an obligation of the
+# filter checks (0/0 and x/0 are the schedule-level sources of NaN / inf)
+DIV_SINK = [None]
+
+
+def _on_div(den):
+    s = DIV_SINK[0]
+    if s is not None and isinstance(den, T) and not den.inf and not isinstance(den.v, (int, float)):
+        s.append(('div', den))
+
+
 # ------------------------------------------------------------------------------------------
 # symbolic booleans
 # ------------------------------------------------------------------------------------------
@@ -102,9 +114,7 @@ class T:
         elif op == 'div':
             # division by a symbolic quantity: the path must know it is non-zero, otherwise
             # the real code would produce inf/nan or raise -> recorded as an event
-            ex = _ex()
-            if ex is not None and hasattr(ex, 'on_division'):
-                ex.on_division(a, b)
+            _on_div(b)
             r = a.v / b.v
         ex = _ex()
         if ex is not None and getattr(ex, 'havoc_add', False) and op == 'add':
@@ -308,6 +318,8 @@ class Tok:
 
     # numeric-looking protocol ----------------------------------------------------------
     def _bin(self, name, o, swap=False):
+        if name == 'div' and not swap:
+            _on_div(o)
         return Tok(name, *((o, self) if swap else (self, o)), n=self.n)
 
     def __add__(self, o): return self._bin('add', o)
